@@ -1,28 +1,29 @@
-import Gocc.Model.SemCheck
+import Gocc.Spec.SemWF
 /-
 C14, semantic half — "uses an undefined syntax production or regular definition, defines a token,
 ignored token or regular definition twice, or leaves an alternative empty".
 
 Object: `semCheck` (Model/SemCheck.lean), the model of NewLexProdMap/NewLexPart, `consistent` and
-`UndefinedRegDef`.  Spec: `SemWF`, the four clauses of the property read literally.
-Theorem: the checks pass exactly on the well-formed grammars, for every grammar value; and each error
-names a real culprit.  Tie: the C14 check mutates grammar VALUES (reference renaming, definition
-duplication, emptied alternative), lets the model predict the verdict and compares it with gocc's exit status.
+`UndefinedRegDef`.  Spec: `SemWF` (Spec/SemWF.lean), the four clauses of the property read literally,
+independently of the code (its executable form `semWFb` is the oracle of the C14 check).
+Theorem: the checks pass exactly on the well-formed grammars, for every grammar value the front end can
+produce (`KindsOk`); and each error names a real culprit.
+Tie: the C14 check mutates grammar VALUES (reference renaming — also to names with a non-ASCII capital —,
+definition duplication, harmless twins), lets spec and model give their verdicts and compares both with gocc.
+
+History: the first version of this file stated the spec with the code's own ASCII test for "is a production
+name"; the theorem was true and hid defect D14 (`S : a Äb ;` with `Äb` undefined exits 0).  The spec now uses the
+front end's classification (`SSym.kind`), the defect was found by the check, fixed, and the model follows the fix.
 -/
 namespace Gocc
 
-/-- the property's clauses -/
-structure SemWF (g : Grammar) (imports : List String) : Prop where
-  /-- no token, ignored token or regular definition is defined twice -/
-  noDup : (g.lex.map (·.id)).Nodup
-  /-- no alternative is left empty -/
-  noEmpty : ∀ p ∈ g.syn, p.body ≠ []
-  /-- every production name used in a body (a symbol spelled with an initial capital that is not a
-      string literal) is defined (the heads; a token id can never be spelled that way) -/
-  prodsDefined : ∀ p ∈ g.syn, ∀ s ∈ p.body, s.kind ≠ .strLit → startsUpper s.name = true →
-    s.name = "empty" ∨ s.name = "error" ∨ s.name ∈ synDefs g
-  /-- every regular definition used in a pattern is defined (or imported) -/
-  regDefsDefined : ∀ p ∈ g.lex, ∀ r ∈ p.pat.refs, r ∈ regDefIds g ∨ r ∈ imports
+/-- what the front end guarantees about symbols it classifies as production names: they are not spelled
+    like a token id or like the keywords `empty` / `error` (those start with a lower-case letter) -/
+def KindsOk (g : Grammar) : Prop :=
+  ∀ p ∈ g.syn, ∀ s ∈ p.body, s.kind = .prodId →
+    s.name ∉ (g.lex.filter fun p => p.kind == .tok).map (·.id) ∧ s.name ≠ "empty" ∧ s.name ≠ "error"
+
+instance (g : Grammar) : Decidable (KindsOk g) := by unfold KindsOk; infer_instance
 
 theorem firstDup_none {l : List String} : firstDup l = none ↔ l.Nodup := by
   induction l with
@@ -54,8 +55,8 @@ theorem firstDup_some {l : List String} {x : String} (h : firstDup l = some x) :
       have := ih h
       rw [List.count_cons]; omega
 
-/-- (C14-sem) MAIN: the semantic checks pass exactly on the grammars that satisfy the four clauses -/
-theorem C14_semCheck_iff (g : Grammar) (imports : List String) :
+/-- (C14-sem) MAIN: the semantic checks pass exactly on the grammars that satisfy the property's clauses -/
+theorem C14_semCheck_iff (g : Grammar) (imports : List String) (hk : KindsOk g) :
     semCheck g imports = .ok () ↔ SemWF g imports := by
   unfold semCheck
   constructor
@@ -77,19 +78,19 @@ theorem C14_semCheck_iff (g : Grammar) (imports : List String) :
     · intro p hp hb
       have := List.find?_eq_none.1 he p hp
       simp [hb] at this
-    · intro p hp s hs hk hup
+    · intro p hp s hs hkd
       have := List.find?_eq_none.1 hu s (List.mem_flatMap.2 ⟨p, hp, hs⟩)
-      simp only [undefinedUse, Bool.and_eq_true, bne_iff_ne, ne_eq, Bool.not_eq_true',
-        not_and, Bool.not_eq_true] at this
-      by_cases h1 : s.name = "empty"
-      · exact Or.inl h1
-      by_cases h2 : s.name = "error"
-      · exact Or.inr (Or.inl h2)
-      refine Or.inr (Or.inr ?_)
+      obtain ⟨k1, k2, k3⟩ := hk p hp s hs hkd
+      simp only [undefinedUse, hkd, beq_self_eq_true, Bool.true_and, Bool.and_eq_true, bne_iff_ne, ne_eq,
+        Bool.not_eq_true', not_and, Bool.not_eq_true] at this
       by_cases hc : (synDefs g).contains s.name
-      · exact List.contains_iff_mem.1 hc
-      · have := this ⟨⟨⟨hk, by simpa using hc⟩, h1⟩, h2⟩
-        rw [hup] at this; cases this
+      · have hm := List.contains_iff_mem.1 hc
+        unfold synDefs at hm
+        rcases List.mem_append.1 hm with h1 | h1
+        · exact absurd h1 k1
+        · exact h1
+      · have h1 : ((synDefs g).contains s.name = false ∧ ¬s.name = "empty") := ⟨by simpa using hc, k2⟩
+        exact absurd (this h1) (by simpa using k3)
     · intro p hp r hr'
       have := List.find?_eq_none.1 hr (r, p.id)
         (List.mem_flatMap.2 ⟨p, hp, List.mem_map.2 ⟨r, hr', rfl⟩⟩)
@@ -108,17 +109,12 @@ theorem C14_semCheck_iff (g : Grammar) (imports : List String) :
       apply List.find?_eq_none.2
       intro s hs
       obtain ⟨p, hp, hs⟩ := List.mem_flatMap.1 hs
-      simp only [undefinedUse, Bool.and_eq_true, bne_iff_ne, ne_eq, Bool.not_eq_true',
-        not_and, Bool.not_eq_true]
-      intro ⟨⟨⟨hk, hc⟩, h1'⟩, h2'⟩
-      cases hup : startsUpper s.name with
-      | false => rfl
-      | true =>
-        rcases hu p hp s hs hk hup with h | h | h
-        · exact absurd h h1'
-        · exact absurd h h2'
-        · have := List.contains_iff_mem.2 h
-          rw [this] at hc; cases hc
+      by_cases hkd : s.kind = .prodId
+      · have hm : s.name ∈ synDefs g := by
+          unfold synDefs; exact List.mem_append.2 (Or.inr (hu p hp s hs hkd))
+        simp only [undefinedUse]
+        simp [hm]
+      · simp [undefinedUse, hkd]
     have h4 : (g.lex.flatMap fun p => p.pat.refs.map fun r => (r, p.id)).find?
         (fun x => !(regDefIds g).contains x.1 && !imports.contains x.1) = none := by
       apply List.find?_eq_none.2
@@ -130,13 +126,18 @@ theorem C14_semCheck_iff (g : Grammar) (imports : List String) :
       · simp [h]
     simp only [h1, h2, h3, h4, pure, Except.pure]
 
+/-- the executable oracle of the check agrees with the model on everything the front end can produce -/
+theorem C14_semCheck_iff_oracle (g : Grammar) (imports : List String) (hk : KindsOk g) :
+    semCheck g imports = .ok () ↔ semWFb g imports = true :=
+  (C14_semCheck_iff g imports hk).trans (semWFb_iff g imports).symm
+
 /-- each reported error has a culprit in the grammar -/
 theorem C14_semCheck_culprit {g : Grammar} {im : List String} {e : SemErr}
     (h : semCheck g im = .error e) :
     match e with
     | .dupDef id => 2 ≤ (g.lex.map (·.id)).count id
     | .emptyAlt hd => ∃ p ∈ g.syn, p.head = hd ∧ p.body = []
-    | .undefinedProd s => ∃ p ∈ g.syn, ∃ x ∈ p.body, x.name = s ∧ s ∉ synDefs g
+    | .undefinedProd s => ∃ p ∈ g.syn, ∃ x ∈ p.body, x.kind = .prodId ∧ x.name = s ∧ s ∉ g.syn.map (·.head)
     | .undefinedRegDef r user => ∃ p ∈ g.lex, p.id = user ∧ r ∈ p.pat.refs ∧ r ∉ regDefIds g ∧ r ∉ im := by
   unfold semCheck at h
   simp only [bind, Except.bind, pure, Except.pure, throw, throwThe, MonadExceptOf.throw] at h
@@ -155,10 +156,11 @@ theorem C14_semCheck_culprit {g : Grammar} {im : List String} {e : SemErr}
     have hs := List.mem_of_find?_eq_some hf
     obtain ⟨p, hp, hs⟩ := List.mem_flatMap.1 hs
     have := List.find?_some hf
-    simp only [undefinedUse, Bool.and_eq_true, bne_iff_ne, ne_eq, Bool.not_eq_true'] at this
-    refine ⟨p, hp, s, hs, rfl, ?_⟩
+    simp only [undefinedUse, Bool.and_eq_true, bne_iff_ne, ne_eq, Bool.not_eq_true', beq_iff_eq] at this
+    refine ⟨p, hp, s, hs, this.1.1.1, rfl, ?_⟩
     intro hm
-    have := List.contains_iff_mem.2 hm
+    have : s.name ∈ synDefs g := by unfold synDefs; exact List.mem_append.2 (Or.inr hm)
+    have := List.contains_iff_mem.2 this
     simp_all
   split at h
   · rename_i x hf
@@ -190,11 +192,15 @@ def syn : List SProd := [
   { head := "E", body := [⟨.tokId, "num"⟩] },
   { head := "E", body := [⟨.tokId, "undeclared_token"⟩] } ]   -- a warning only, as in gocc
 def good : Grammar := { lex := lex, syn := syn }
+example : KindsOk good := by decide
 example : semCheck good = .ok () := by decide
-example : SemWF good [] := (C14_semCheck_iff good []).1 (by decide)
-/-- reference renaming -/
+example : SemWF good [] := (C14_semCheck_iff good [] (by decide)).1 (by decide)
+/-- reference renaming, also to a name whose capital is not ASCII (defect D14) -/
 example : semCheck { good with syn := syn ++ [{ head := "E", body := [⟨.prodId, "Undefined9"⟩] }] }
     = .error (.undefinedProd "Undefined9") := by decide
+example : semCheck { good with syn := syn ++ [{ head := "E", body := [⟨.prodId, "Äb"⟩] }] }
+    = .error (.undefinedProd "Äb") := by decide
+example : semWFb { good with syn := syn ++ [{ head := "E", body := [⟨.prodId, "Äb"⟩] }] } = false := by decide
 example : semCheck { good with lex := lex ++ [{ kind := .tok, id := "x", pat := .mk [.mk [.opt (.mk [.mk [.ref "_u"]])]] }] }
     = .error (.undefinedRegDef "_u" "x") := by decide
 /-- … unless imported -/
@@ -206,6 +212,9 @@ example : semCheck { good with lex := lex ++ [lex[1]!] } = .error (.dupDef "num"
 example : semCheck { good with lex := lex ++ [lex[2]!] } = .error (.dupDef "!ws") := by decide
 /-- emptied alternative -/
 example : semCheck { good with syn := syn ++ [{ head := "E", body := [] }] } = .error (.emptyAlt "E") := by decide
+/-- `KindsOk` is needed: a "production name" spelled like a token id is found among `defs` by `consistent` -/
+example : semCheck { good with syn := syn ++ [{ head := "E", body := [⟨.prodId, "num"⟩] }] } = .ok () ∧
+    semWFb { good with syn := syn ++ [{ head := "E", body := [⟨.prodId, "num"⟩] }] } = false := by decide
 end C14SemEx
 
 end Gocc
